@@ -40,6 +40,7 @@ def run(rep, tier, seed):
     # verdicts of the checker interleaved with the inter-procedural analyses: oracle only
     C02_inter.streams(rep, tier, seed)
     C02_doms.streams(rep, tier, seed)
+    import C02_refs; C02_refs.streams(rep, tier, seed)       # reference assertions over the region domains: oracle only
     # forward+backward analyzer: correspondence with the Coq mirror Ana/FwdBwd.v (theorem
     # C02_forward_backward_verdicts_sound applies to what the mirror prints) + concrete oracle
     rep.assumptions = [a.replace("forward+backward (refinement loop, dominance-based discharge) and inter-procedural verdicts",
